@@ -296,9 +296,11 @@ Theorem translated_render_svg_is_model o t input :
    d <- svg_doc t input ;;
    Some (svg_print (svg_width_px o (svg_split_lines styled)) (svg_o_uw o) d)).
 Proof.
-  unfold g_svg_render, svg_doc, svg_styled. cbv zeta. cbn [fst snd].
-  rewrite translated_extract_next_is_model.
+  unfold g_svg_render, svg_doc, svg_styled. cbv zeta.
+  (* `WinconBytes::new()` and the drained `extract_next` are the TRANSLATED glue of Generated/WinconFn.v *)
+  rewrite translated_wb_extract_next_is_model.
   destruct (extract_next input parser_new capture_default) as [[[runs p] c]|]; [|reflexivity].
+  cbv beta iota.
   match goal with |- context [for_list0 ?f runs _] => set (FI := f) end.
   set (inv := fun p : sstyle * list N => (svg_invert t (fst p), snd p)).
   assert (LI : forall l acc e, for_list0 FI l (acc, e) =
